@@ -647,7 +647,41 @@ func parseGenSpecs(c *common, arg string) []parseGenSpec {
 	return out
 }
 
+// parseSeeds: hand-written texts, one per lexical/parsing mechanism that carries state over a
+// pause or a reset (every single cut x every history, seeded pairs of cuts on a fresh parser).
+var parseSeeds = []string{
+	"42", "\"abc", "(read \"1\")", "/***/ a ", "/* x **/ (b) ", "(a \\ b) ", "(1 * \\ (2)) ",
+	"(def a %(b c)) ", "(f ^x ~y ~@z) ", "(g %foo) ", "(- inf) ", "(* -inf - inf) ", "-1 ", "-.5 ", "(- 1 -2) ",
+	"(a \"b\\\"c\" 'x' `r\n`) ", "{a: 1 \"k\": 2} ", "[1, 2] ", "(a ;b\n c) ", "a.b:c ", "x := 1e-5 ",
+	"(defn hel[] \"gr(((\") ", "// c\n(a) ", "(a /* c */ b) ", "{a = `\n\n`} ", "(x . y) ", "a /", "b:",
+	"(+ 1 2) (* 3 4)\n", "'\\n' ", "(h a: [1 2] b: {c: 3}) ", "$x #y ?z ", "(-> a b) ", "a ** b -- c ",
+}
+
+func parseSeedCases(c *common, w *ndWriter) {
+	for i, text := range parseSeeds {
+		if !c.mine(i) {
+			continue
+		}
+		b := newParseCase(fmt.Sprintf("k%d", i), text)
+		n := len(b.runes)
+		r := newRng(c.seed, uint64(9000+i))
+		for hi := range parseHists {
+			b.exec(parseRun{hist: hi})
+			for cut := 1; cut < n; cut++ {
+				b.exec(parseRun{hist: hi, load: (hi + cut) % 2, cuts: []int{cut}})
+			}
+		}
+		for k := 0; k < 3*n; k++ {
+			b.exec(parseRun{hist: 0, cuts: parseRandomCuts(r, n, 2+r.intn(2))})
+		}
+		w.write(b.finish(true))
+	}
+}
+
 func parseGen(c *common, w *ndWriter, arg string) {
+	if arg == "" {
+		parseSeedCases(c, w)
+	}
 	idx := 0
 	for _, sp := range parseGenSpecs(c, arg) {
 		var alpha []string
